@@ -10,7 +10,7 @@ AM_ENVS = ["tsp", "cvrp", "cvrptw", "sdvrp", "svrp", "op", "pctsp", "spctsp", "p
 
 def env_for(name, n, **extra):
     """(env, oracle-or-None, cfg) for a zoo key."""
-    if name in ("smtwtp", "fjsp", "jssp", "ffsp", "flp", "mcp"):
+    if name in ("smtwtp", "fjsp", "jssp", "ffsp", "flp", "mcp", "dpp", "mdpp"):
         cfg = dict(env=name, n=n, **extra)
         return envzoo.make_other(cfg), None, cfg
     cfg = dict(env=name, n=n, **extra)
@@ -80,6 +80,12 @@ def make(kind, env, seed=0, **kw):
         from rl4co.models.zoo.polynet.policy import PolyNetPolicy
 
         p = PolyNetPolicy(k=kw.pop("k", 3), env_name=name, embed_dim=32, num_encoder_layers=1, num_heads=2, **kw)
+    elif kind == "matnet_ffsp":
+        # MatNet for the flexible flow shop as originally implemented: one encoder / decoder per stage, decode loop on policy level
+        from rl4co.models.zoo.matnet.policy import MultiStageFFSPPolicy
+
+        p = MultiStageFFSPPolicy(stage_cnt=env.num_stage, embed_dim=32, num_heads=2, num_encoder_layers=1, feedforward_hidden=32,
+                                 train_decode_type="sampling", val_decode_type="greedy", test_decode_type="greedy", **kw)
     elif kind == "l2d":
         from rl4co.models import L2DPolicy
 
